@@ -195,6 +195,7 @@ func init() {
 		}))
 	}
 	ops["names.slspec"] = func(f Fields) string { return f["want"] }
+	ops["names.generator-panic"] = func(f Fields) string { return "generator-panic:" + f["section"] }
 	ops["names.slrt"] = func(f Fields) string {
 		return nmCanon(guard(func() string {
 			data, err := nmEncodeScriptList(f.List("pairs", ","))
@@ -489,13 +490,21 @@ func nmGenNames(n, c int) []string {
 
 // ---- generators ----------------------------------------------------------------------
 
-var nmMacHigh = []rune(mac.Decode(func() []byte {
+var nmMacHigh = func() (out []rune) {
+	defer func() {
+		if recover() != nil || len(out) != 128 {
+			out = make([]rune, 128) // the library failed: the cases built from this are still emitted
+			for i := range out {
+				out[i] = rune(0xC0 + i%64)
+			}
+		}
+	}()
 	b := make([]byte, 128)
 	for i := range b {
 		b[i] = byte(128 + i)
 	}
-	return b
-}()))
+	return []rune(mac.Decode(b))
+}()
 
 func nmRandRune(r *Rng, class int) rune {
 	switch class {
@@ -564,11 +573,22 @@ func nmBoundaryStrings(sp []rune, filler []rune) []string {
 
 func nmStdNames() []string {
 	// the library's own table, obtained through a format 1 table
-	info, err := post.Read(bytes.NewReader(append([]byte{0, 1, 0, 0}, make([]byte, 28)...)))
-	if err != nil {
-		panic(err)
+	var names []string
+	nmTry(func() {
+		info, err := post.Read(bytes.NewReader(append([]byte{0, 1, 0, 0}, make([]byte, 28)...)))
+		if err == nil {
+			names = append([]string(nil), info.Names...)
+		}
+	})
+	if len(names) != 258 {
+		// the library failed to produce its table: the cases are emitted anyway (over placeholder
+		// names) and fail against the model
+		names = make([]string, 258)
+		for i := range names {
+			names[i] = fmt.Sprintf("std%d", i)
+		}
 	}
-	return append([]string(nil), info.Names...)
+	return names
 }
 
 func nmRandGlyphName(r *Rng) string {
@@ -597,11 +617,33 @@ func nmRandGlyphName(r *Rng) string {
 }
 
 func areaNames(c *Ctx) {
-	nmCodecs(c)
-	nmPost(c)
-	nmNameTable(c)
-	nmTags(c)
-	nmChoose(c)
+	// A changed library may panic inside a generator-side call.  Every such call is guarded where it
+	// is made (the case is emitted anyway and its op handler reports the panic as a failing line);
+	// the section guard below is the last line of defence: a generator never takes the harness down.
+	for _, sec := range []struct {
+		name string
+		fn   func(*Ctx)
+	}{{"codecs", nmCodecs}, {"post", nmPost}, {"name", nmNameTable}, {"tags", nmTags}, {"choose", nmChoose}} {
+		if msg := nmTry(func() { sec.fn(c) }); msg != "" {
+			c.Stat("generator_panic", sec.name)
+			// a failing verdict line that names the section (the Lean side answers "bad-op")
+			c.Case(Verdict, "names.generator-panic", "section="+sec.name, true)
+		}
+	}
+}
+
+// nmTry runs f and returns the panic message ("" if none)
+func nmTry(f func()) (msg string) {
+	defer func() {
+		if r := recover(); r != nil {
+			msg = fmt.Sprint(r)
+			if msg == "" {
+				msg = "panic"
+			}
+		}
+	}()
+	f()
+	return ""
 }
 
 // nmChoose: Tables.Choose; the language matcher's answer (an index into the candidate list) is
@@ -751,7 +793,13 @@ func nmScriptListCase(c *Ctx, pairs [][2]string, class string) {
 	}
 	arg := strings.Join(parts, ",")
 	c.Case(Direct, "names.slrt", "pairs="+arg, true)
-	data, err := nmEncodeScriptList(parts)
+	var data []byte
+	err := ""
+	if msg := nmTry(func() { data, err = nmEncodeScriptList(parts) }); msg != "" {
+		// the real encoder panicked: the independent reader gets nothing to read and the line fails
+		data, err = nil, ""
+		c.Stat("scriptlist_class", "encoder-panic")
+	}
 	if err == "" {
 		sorted := append([]string(nil), parts...)
 		sort.Strings(sorted)
@@ -774,6 +822,53 @@ func nmScriptLists(c *Ctx, sk, lk []string) {
 			nmScriptListCase(c, pairs, "one-script-all-languages")
 		}
 	}
+	// default language system present / absent in every arrangement: for 1, 2 and 3 scripts (sorted tag
+	// order arab < cyrl < latn) every subset of scripts has a default LangSys; scripts have 0, 1 or 2
+	// explicit language systems (languages-only scripts, default-only scripts); then runs of four scripts
+	// with the default-less ones first / in the middle / last / two in a row
+	trio := []string{"arab", "cyrl", "latn"}
+	explicit := map[string][]string{"arab": {"ARA ", "URD "}, "cyrl": {"RUS ", "SRB "}, "latn": {"DEU ", "NLD "}, "grek": {"ELL "}, "hebr": {"IWR "}}
+	for n := 1; n <= 3; n++ {
+		for mask := 0; mask < 1<<n; mask++ {
+			for nl := 0; nl <= 2; nl++ {
+				var pairs [][2]string
+				for i := 0; i < n; i++ {
+					sc := trio[i]
+					hasDefault := mask&(1<<i) != 0
+					if hasDefault {
+						pairs = append(pairs, [2]string{sc, ""})
+					}
+					k := nl
+					if !hasDefault && k == 0 {
+						k = 1 // a script needs at least one language system
+					}
+					for _, l := range explicit[sc][:k] {
+						pairs = append(pairs, [2]string{sc, l})
+					}
+				}
+				nmScriptListCase(c, pairs, fmt.Sprintf("default-pattern-%d-scripts", n))
+			}
+		}
+	}
+	for _, pat := range []string{"DDDD", "dDDD", "DdDD", "DDDd", "DddD", "ddDD", "DDdd", "dddd", "dDdD", "DdDd"} {
+		var pairs [][2]string
+		for i, sc := range []string{"arab", "cyrl", "grek", "latn"} {
+			if pat[i] == 'D' {
+				pairs = append(pairs, [2]string{sc, ""})
+				if r.Bool() {
+					pairs = append(pairs, [2]string{sc, explicit[sc][0]})
+				}
+			} else {
+				pairs = append(pairs, [2]string{sc, explicit[sc][0]})
+			}
+		}
+		// the map order of the keys is Go's; the case line lists the entries in a shuffled order too
+		for j := len(pairs) - 1; j > 0; j-- {
+			k := r.Intn(j + 1)
+			pairs[j], pairs[k] = pairs[k], pairs[j]
+		}
+		nmScriptListCase(c, pairs, "default-pattern-"+pat)
+	}
 	// every script and every language at least once, a few language systems per script
 	li := 0
 	for _, s := range sk {
@@ -789,6 +884,9 @@ func nmScriptLists(c *Ctx, sk, lk []string) {
 		var pairs [][2]string
 		for k := r.Range(1, 12); k > 0; k-- {
 			p := [2]string{Pick(r, sk[:1+r.Intn(len(sk))]), Pick(r, lk)}
+			if r.Chance(1, 3) {
+				p[1] = "" // default language system
+			}
 			if r.Chance(1, 2) && len(pairs) > 0 {
 				p[0] = pairs[len(pairs)-1][0]
 			}
@@ -1070,13 +1168,17 @@ func nmNameCase(c *Ctx, es []nmEntry, eid int, class string) {
 	c.Stat("name_entries", bucket(len(es)))
 	c.Stat("name_mac_tags", bucket(len(tags[1])))
 	c.Stat("name_win_tags", bucket(len(tags[3])))
-	numRec, storage, fits := nmFits(es, eid)
+	var numRec, storage int
+	fits := true
+	nmTry(func() { numRec, storage, fits = nmFits(es, eid) })
 	c.Stat("name_records", bucket(numRec))
 	c.Stat("name_storage", bucket(storage))
 	// byte-exact for every Info: after the repair Encode visits the language ids in increasing
 	// order, so the storage layout is a function of the Info (also beyond the capacity guard)
 	out := c.Case(Verdict, "names.enc", args, len(es) > 0)
-	domOK := nmInDomain(es) && (eid == 1 || eid == 10)
+	domOK := true // if the library panics while the domain is evaluated the direct lines are emitted anyway
+	nmTry(func() { domOK = nmInDomain(es) })
+	domOK = domOK && (eid == 1 || eid == 10)
 	if out == "panic" {
 		// the encoder refused (16-bit capacity of the format): the model must refuse too (verdict
 		// above) and refusal is what the property's predicate expects there (direct)
